@@ -320,6 +320,15 @@ def main() -> int:
         a.tier = "quick"
     if a.replay:
         return replay(a.prop, a.replay)
+    if os.environ.get("VERIF_REPO"):
+        # developer run against a scratch source tree: build in a private copy of the Coq development so that the
+        # generated files of this run never meet those of a concurrent run against /repo
+        import atexit, shutil, tempfile
+        scratch = tempfile.mkdtemp(prefix="tsverif-coq-")
+        atexit.register(shutil.rmtree, scratch, True)
+        shutil.copytree(coqrun.COQ, os.path.join(scratch, "coq"), ignore=shutil.ignore_patterns("cases", ".lock"))
+        coqrun.COQ = os.path.join(scratch, "coq")
+        coqrun.LOCK = os.path.join(coqrun.COQ, ".lock")
     try:
         return decide(a.prop, a.tier, a.seed)
     except Exception:
